@@ -23,6 +23,8 @@ pub struct GenProfile {
     /// percent chance that a client's chain starts from another client's version (and that
     /// snapshot / child-version arguments point into the other client's chain)
     pub entangle_pct: u32,
+    /// chance per 10000 operations of a 1.1 s pause
+    pub pause_per_10k: u32,
 }
 
 impl Default for GenProfile {
@@ -39,6 +41,7 @@ impl Default for GenProfile {
             big_payload_pct: 4,
             snapshot_bursts: true,
             entangle_pct: 0,
+            pause_per_10k: 0,
         }
     }
 }
@@ -113,6 +116,10 @@ pub fn generate(seed: u64, prof: &GenProfile) -> History {
                 IdRef::Fresh(fresh_n - 1)
             }
         };
+        if prof.pause_per_10k > 0 && rng.below(10_000) < prof.pause_per_10k as u64 {
+            ops.push(Op { client: c, kind: OpKind::Pause });
+            continue;
+        }
         let k = if burst_left > 0 {
             burst_left -= 1;
             2
